@@ -699,7 +699,41 @@ def mtol_check(d, case, rec):
     rec.close("orientation", max(0.0, float(-vol.min())), 0.0)
 
 
+def dual_strategy(ct, tier):
+    return st.fixed_dictionaries({"n": st.lists(st.integers(2, 4), min_size=3, max_size=3), "size": st.lists(fl(0.5, 2), min_size=3, max_size=3),
+                                  "offset": st.sampled_from([0, 0, 1, 5, 17]), "disconnect": st.booleans(), "ppc": st.sampled_from([None, "vertices"])})
+
+
+def dual_check(ct, case, rec):
+    """dual meshes (the generalisation of disconnect): every cell keeps its corner positions, with an offset the first
+    `offset` rows of the point array are placeholders and the connectivity is shifted by it"""
+    fem = import_felupe()
+    dim = 2 if ct in ("quad", "triangle") else 3
+    m = (fem.Rectangle if dim == 2 else fem.Cube)(b=tuple(case["size"][:dim]), n=tuple(case["n"][:dim]))
+    if ct in ("triangle", "tetra"):
+        m = m.triangulate()
+    P0, C0 = np.array(m.points), np.array(m.cells)
+    off = case["offset"]
+    kw = dict(disconnect=case["disconnect"], calc_points=True, offset=off)
+    d = m.dual(**kw)
+    P, C = np.array(d.points, float), np.array(d.cells)
+    rec.nontrivial = off > 0
+    rec.require("input-mesh-unchanged", np.array_equal(np.array(m.cells), C0) and np.array_equal(np.array(m.points), P0))
+    rec.require("cells-shape", C.shape == C0.shape, [C.shape, C0.shape])
+    if C.shape != C0.shape or C.max() >= len(P):
+        rec.require("cells-index-points", C.shape == C0.shape and C.max() < len(P), [int(C.max()), len(P)])
+        return
+    rec.require("offset-shifts-connectivity", int(C.min()) >= off, [int(C.min()), off])
+    rec.close("cell-corner-positions", float(np.abs(P[C] - P0[C0]).max()), 0.0, {"offset": off, "disconnect": case["disconnect"]})
+    vol = volumes(P, C, d.cell_type)
+    rec.close("covered-volume", abs(vol.sum() - float(np.prod(case["size"][:dim]))) / float(np.prod(case["size"][:dim])), 1e-12)
+    rec.close("orientation", max(0.0, float(-vol.min())), 0.0)
+    if case["disconnect"]:
+        rec.require("disconnected:one-point-per-cell-corner", len(P) == off + C.size and len(np.unique(C)) == C.size, [len(P), off + C.size])
+
+
 FAMILIES = [
+    Family("dual", ["quad", "hexahedron", "triangle", "tetra"], dual_check, strategy=dual_strategy, n={"quick": 8, "thorough": 150}, chunk=8),
     Family("merge-tolerance", [-1, 0, 1, 2, 4], mtol_check, strategy=mtol_strategy, n={"quick": 8, "thorough": 200}, chunk=8),
     Family("revolve-side", REV_AXIS, rev_check, strategy=rev_strategy, n={"quick": 6, "thorough": 200}, chunk=6),
     Family("generators", GENS, gen_check, strategy=gen_strategy, n={"quick": 30, "thorough": 600}, chunk=100),
